@@ -98,7 +98,40 @@ def run(c):
                 fail = f"_check_types() raised {type(e).__name__} after inference (erased: {c['erased']})"
     if fail is None:
         fail = staged(r, c)
+    if fail is None:
+        fail = aliased_wrong_output(c)
     return Outcome(coq, fail, nontriv, sig)
+
+
+def aliased_wrong_output(c):
+    """ONE ndarray object given to an Input and (as a wrong shape) to an Output, a shape-changing un-annotated layer in between:
+    correcting the Output must not rewrite the Input (nor the caller's array)"""
+    import hashlib
+    import numpy as np
+    import nir
+    h = int(hashlib.sha256(repr(c["erased"]).encode() + repr(sorted(c["truth"])).encode()).hexdigest(), 16)
+    if h % 4:
+        return None
+    n = 6 + h % 5
+    shape = np.array([1, n, n])
+    try:
+        with quiet():
+            conv = nir.Conv2d(input_shape=None, weight=np.zeros((2, 1, 3, 3), dtype="float32"), stride=1, padding=0, dilation=1,
+                              groups=1, bias=np.zeros(2, dtype="float32"))
+            g = nir.NIRGraph(nodes={"in": nir.Input(shape), "conv": conv, "out": nir.Output(shape), "out2": nir.Output(shape)},
+                             edges=[("in", "conv"), ("conv", "out"), ("conv", "out2")])
+            g.infer_types()
+    except BaseException as e:  # noqa: BLE001
+        return f"Input and wrong Output built from one array object: infer_types raised {type(e).__name__}: {e}"
+    want = {"in": ([1, n, n], [1, n, n]), "conv": ([1, n, n], [2, n - 2, n - 2]), "out": ([2, n - 2, n - 2],) * 2, "out2": ([2, n - 2, n - 2],) * 2}
+    for k, (ti, to) in want.items():
+        gi, go = tval(g.nodes[k].input_type, "input"), tval(g.nodes[k].output_type, "output")
+        if gi != ti or go != to:
+            return (f"Input and (wrong) Output shapes given as ONE array object [1,{n},{n}] around an un-annotated Conv2d: after infer_types() "
+                    f"node {k} has {gi} -> {go}, expected {ti} -> {to}")
+    if [int(x) for x in shape] != [1, n, n]:
+        return f"infer_types() rewrote the caller's shape array to {shape.tolist()}"
+    return None
 
 
 def staged(r, c):
